@@ -441,6 +441,11 @@ def m_hash_digest(ctx, args):
 
 # ---------------------------------------------------------------- integers
 def _self_int_ty(ctx):
+    # the integer type an inherent `core::num` method is called on: the callee's own impl type (reliable also when the
+    # method is passed as a function value, e.g. `.and_then(i64::checked_neg)`), else the type of the first operand
+    st = ctx.desc.get("self_ty") if isinstance(ctx.desc, dict) else None
+    if st and st[0] == "prim":
+        return st[1]
     t = ctx.arg_ty(0)
     return ty_str(t) if t else "?"
 
